@@ -17,7 +17,11 @@ NAMES = {"radius": "NRadius", "diameter": "NDiameter", "tolerance-legacy": "NTol
 PROBES = [([2, 2, 0, 1], 2, [1, 1, 0, 1], [1, 1, 0, 0], 1, 1),
           ([3, 1, 2, 0], 3, [2, 1, 1, 0], [1, 0, 1, 0], 2, 1),
           ([5, 4, 1, 3, 0, 2], 6, [4, 4, 0, 3, 0, 1], [1, 0, 1, 0, 0, 1], 5, 1),
-          ([1, 1, 1, 1], 2, [1, 1, 0, 0], [0, 0, 1, 1], 1, 1)]
+          ([1, 1, 1, 1], 2, [1, 1, 0, 0], [0, 0, 1, 1], 1, 1),
+          # the merged statistic drops by 0.25 / 0.2 (tolerance 0.3) and by 0.167 / 0.17 (tolerance 0.2):
+          # inside the gap between the adaptive slack tol*(exp(-n/1000) - 1/e) and the non-adaptive slack tol
+          ([0, 1, 2, 2], 3, [0, 0, 1, 2], [0, 1, 1, 0], 2, 1),
+          ([0, 1, 2, 4], 4, [0, 0, 2, 3], [0, 1, 0, 1], 3, 1)]
 
 
 def mk_obj(name, tol):
@@ -38,6 +42,9 @@ def gen_arg(rng):
     name = rng.choice(hist.CRITS + ["bogus"]) if r < 0.7 else rng.choice(hist.CRITS)
     if r < 0.7:
         return ("name", name, None)
+    if r < 0.8 and name in ("tolerance-diameter", "tolerance-radius"):
+        # an object that carries a builtin NAME but not the builtin hyper-parameters
+        return ("objna", name, rng.choice([0.3, 0.2, 0.05]))
     return ("obj", name, rng.choice([0.0, 0.3, 0.05]))
 
 
@@ -47,6 +54,9 @@ def arg_term(a):
         return "ANone"
     if kind == "name":
         return f"(AName {NAMES.get(name, 'NUnknown')})"
+    if kind == "objna":
+        ctor = {"tolerance-diameter": "CTolDiameter", "tolerance-radius": "CTolRadius"}[name]
+        return f"(AObj ({ctor} {cfloat(ot)} 0%float 0%float))"
     return f"(AObj {hist.crit_term(name, ot)})"
 
 
@@ -56,6 +66,10 @@ def arg_value(a):
         return None
     if kind == "name":
         return name
+    if kind == "objna":
+        import bblean._merges as M
+        return {"tolerance-diameter": M.ToleranceDiameterMerge,
+                "tolerance-radius": M.ToleranceRadiusMerge}[name](ot, adaptive=False)
     return mk_obj(name, ot)
 
 
@@ -102,13 +116,30 @@ def suite_config(seed, tier):
             bb, e0 = None, None
         steps = []
         if bb is not None:
+            last_na = a0[1] if a0[0] == "objna" else None
             for _ in range(rng.randint(0, 6)):
                 k = rng.random()
+                if last_na is not None and k < 0.5:
+                    # re-select by NAME the criterion whose name a non-builtin object carries
+                    n = last_na
+                    last_na = None
+                    op = f"(CSetCritProp {NAMES.get(n, 'NUnknown')})"
+                    call = lambda: setattr(bb, "merge_criterion", n)
+                    log.append(("merge_criterion=", n))
+                    try:
+                        call()
+                        ok = True
+                    except ValueError:
+                        ok = False
+                    o = observe(bb, ok)
+                    steps.append(f"({op}, {obs_term(o)})")
+                    continue
                 if k < 0.55:
                     a = gen_arg(rng)
                     tol = rng.choice(tols)
                     thr = rng.choice([None, None, 0.4, 0.8])
                     bf = rng.choice([None, None, 3, 7])
+                    last_na = a[1] if a[0] == "objna" else None
                     op = f"(CSet {arg_term(a)} {copt(tol, cfloat)} {copt(thr, cfloat)} {copt(bf, cz)})"
                     call = lambda: bb.set_merge(arg_value(a), tolerance=tol, threshold=thr,
                                                 branching_factor=bf)
@@ -286,6 +317,10 @@ def gen_log(rng):
     log = [("ctor", gen_arg(rng), rng.choice(tols), rng.choice([0.3, 0.5, 0.65, 0.9]), rng.choice([2, 5, 50]))]
     for _ in range(rng.randint(0, 6)):
         k = rng.random()
+        prev = log[-1]
+        if prev[0] in ("ctor", "set_merge") and prev[1][0] == "objna" and k < 0.5:
+            log.append(("merge_criterion=", prev[1][1]))
+            continue
         if k < 0.55:
             log.append(("set_merge", gen_arg(rng), rng.choice(tols), rng.choice([None, None, 0.4, 0.8]),
                         rng.choice([None, None, 3, 7])))
